@@ -87,6 +87,8 @@ pub trait Sut: Sized + Clone {
     /// an arbitrary (possibly ill-formed) op
     fn raw(a: &mut Args) -> Self::Op;
     fn apply_logged(&mut self, op: &Self::Op, t: &mut Out);
+    /// serde_json round trip of an op: "ok" | "ne" | "err" | "deerr"
+    fn op_roundtrip(op: &Self::Op) -> &'static str;
     /// log validate_op of an op without applying it
     fn validate_only(&self, _op: &Self::Op, _t: &mut Out) {}
     /// apply without logging (used to rebuild the canonical state of a knowledge set)
@@ -154,6 +156,7 @@ fn run_case<S: Sut>(id: &str, disc: u64, cmds: &[Vec<u64>], t: &mut Out) {
                         S::op_sx(&op),
                         deps.iter().map(|d| format!(" {}", d)).collect::<String>()
                     ));
+                    t.call("serde.op", &[S::NAME.to_string(), S::op_sx(&op), S::op_roundtrip(&op).to_string()]);
                     reps[r].apply_logged(&op, t);
                     log.push(OpRec { author: r, op, deps });
                     know[r].insert(idx);
@@ -316,7 +319,13 @@ fn gen_script(ty: &str, seed: u64, cases: u64, len: u64, stream: &str) {
         // scenario (overtaking removes sharing one context, a member present on both sides
         // but removed by a peer that saw a subset of its witnesses, multi-valued registers
         // meeting in a merge, ...) with randomised roles, followed by a random suffix
-        let prelude = if stream != "malformed" && rng.below(4) == 0 { directed_prelude(ty, &mut rng) } else { None };
+        let prelude = if stream != "malformed" {
+            if rng.below(4) == 0 { directed_prelude(ty, &mut rng) } else { None }
+        } else if rng.below(4) == 0 {
+            misuse_prelude(ty, &mut rng)
+        } else {
+            None
+        };
         let disc = match &prelude { Some((d, _)) => *d, None => disc };
         writeln!(w, "case {}-{} {} {}", seed, c, ty, disc).unwrap();
         if let Some((_, cmds)) = &prelude {
@@ -451,6 +460,20 @@ fn directed_prelude(ty: &str, rng: &mut Rng) -> Option<(u64, Vec<Vec<u64>>)> {
                 vec![K_DELIVER, rc, nodup, 0],           // C gets the second update
             ]),
         }),
+        "list" => Some((0, vec![
+            // two sites delete the same element concurrently; each delete reaches a replica
+            // where the element is already gone; then further ops of both sites follow
+            vec![K_EDIT, ra, m0, 0, 0],                  // A: insert at 0              (op 0)
+            vec![K_DELIVER, rb, nodup, 0],
+            vec![K_EDIT, ra, 0, 4, 0],                   // A: delete index 0           (op 1)
+            vec![K_EDIT, rb, 0, 4, 0],                   // B: delete index 0           (op 2)
+            vec![K_DELIVER, ra, nodup, 0],               // A gets B's delete: no-op
+            vec![K_DELIVER, rb, nodup, 0],               // B gets A's delete: no-op
+            vec![K_EDIT, rb, m1, 3],                     // B: append                   (op 3)
+            vec![K_EDIT, ra, m1, 3],                     // A: append                   (op 4)
+            vec![K_DELIVER, ra, nodup, 0],
+            vec![K_DELIVER, rb, nodup, 0],
+        ])),
         "mvreg" => Some(match rng.below(2) {
             // two concurrent values meet a third replica, then merges in both directions
             0 => (2, vec![
@@ -474,6 +497,30 @@ fn directed_prelude(ty: &str, rng: &mut Rng) -> Option<(u64, Vec<Vec<u64>>)> {
                 vec![K_EDIT, rc, m0, 0],                 // c resolves
             ]),
         }),
+        _ => None,
+    }
+}
+
+/// Malformed stream: one actor identity used at two replicas independently (the misuse that
+/// validate_merge exists to flag), on members / keys placed before and after a shared one.
+fn misuse_prelude(ty: &str, rng: &mut Rng) -> Option<(u64, Vec<Vec<u64>>)> {
+    let (ra, rb) = if rng.below(2) == 0 { (0, 1) } else { (1, 0) };
+    let shared = rng.below(2);
+    let other = 1 - shared;
+    match ty {
+        "orswot" | "mapmv" | "mapor" | "mapmm" => Some((1, vec![
+            // A edits the shared member/key as itself; B too (distinct actors: fine)
+            vec![K_EDIT, ra, shared, 0, 1, shared, 0],
+            vec![K_EDIT, rb, shared, 0, 1, shared, 0],
+            // B now edits ANOTHER member/key using A's actor identity: a reused dot
+            vec![K_MISUSE, rb, ra, other, 0, 1, other, 0],
+            vec![K_EXTRA, ra, rb],
+            vec![K_EXTRA, rb, ra],
+            // a member witnessed by two actors at A, then the comparison again
+            vec![K_DELIVER, ra, 1, 0],
+            vec![K_EXTRA, ra, rb],
+            vec![K_EXTRA, rb, ra],
+        ])),
         _ => None,
     }
 }
@@ -512,6 +559,23 @@ pub fn run_generic<S: Sut>(id: &str, disc: u64, cmds: &[Vec<u64>], t: &mut Out) 
 
 pub fn sx<T: serde::Serialize + ?Sized>(v: &T) -> String {
     to_sexp(v)
+}
+
+/// serde_json round trip of a value, compared through its canonical rendering
+pub fn json_roundtrip<T: serde::Serialize + serde::de::DeserializeOwned>(v: &T) -> &'static str {
+    match serde_json::to_string(v) {
+        Err(_) => "err",
+        Ok(text) => match serde_json::from_str::<T>(&text) {
+            Err(_) => "deerr",
+            Ok(back) => {
+                if to_sexp(&back) == to_sexp(v) {
+                    "ok"
+                } else {
+                    "ne"
+                }
+            }
+        },
+    }
 }
 
 fn main() {
